@@ -134,5 +134,5 @@ Open Scope nat_scope.
 Example T06_3_example :
   format_files_model (table_chg [((1, 0), 1); ((2, 5), 1); ((2, 5), 2)]) 3
                      [(2, 5); (1, 1); (1, 0); (2, 4); (1, 1)]
-  = ([[(1, 0); (1, 1); (2, 4); (2, 5)]; [(1, 0); (1, 1); (2, 4); (2, 5)]; [(2, 4); (2, 5)]], false).
+  = ([[(1, 0); (1, 1); (2, 4); (2, 5)]; [(1, 0); (1, 1); (2, 4); (2, 5)]; [(2, 4); (2, 5)]], true).
 Proof. vm_compute. reflexivity. Qed.
